@@ -70,8 +70,8 @@ func (c *CrashDB) write(kind string, key []byte) bool {
 	return true
 }
 
-func (c *CrashDB) Get(k []byte) ([]byte, error)  { return c.inner.Get(k) }
-func (c *CrashDB) Has(k []byte) (bool, error)    { return c.inner.Has(k) }
+func (c *CrashDB) Get(k []byte) ([]byte, error) { return c.inner.Get(k) }
+func (c *CrashDB) Has(k []byte) (bool, error)   { return c.inner.Has(k) }
 func (c *CrashDB) Set(k, v []byte) error {
 	if !c.write("set", k) {
 		return nil
@@ -96,17 +96,19 @@ func (c *CrashDB) DeleteSync(k []byte) error {
 	}
 	return c.inner.DeleteSync(k)
 }
-func (c *CrashDB) Iterator(s, e []byte) (dbm.Iterator, error)        { return c.inner.Iterator(s, e) }
-func (c *CrashDB) ReverseIterator(s, e []byte) (dbm.Iterator, error) { return c.inner.ReverseIterator(s, e) }
-func (c *CrashDB) Close() error                                     { return nil }
-func (c *CrashDB) Print() error                                     { return nil }
-func (c *CrashDB) Stats() map[string]string                         { return c.inner.Stats() }
-func (c *CrashDB) NewBatch() dbm.Batch                              { return &crashBatch{c: c, b: c.inner.NewBatch()} }
+func (c *CrashDB) Iterator(s, e []byte) (dbm.Iterator, error) { return c.inner.Iterator(s, e) }
+func (c *CrashDB) ReverseIterator(s, e []byte) (dbm.Iterator, error) {
+	return c.inner.ReverseIterator(s, e)
+}
+func (c *CrashDB) Close() error             { return nil }
+func (c *CrashDB) Print() error             { return nil }
+func (c *CrashDB) Stats() map[string]string { return c.inner.Stats() }
+func (c *CrashDB) NewBatch() dbm.Batch      { return &crashBatch{c: c, b: c.inner.NewBatch()} }
 
 type crashBatch struct {
-	c    *CrashDB
-	b    dbm.Batch
-	n    int
+	c     *CrashDB
+	b     dbm.Batch
+	n     int
 	first []byte
 }
 
